@@ -10,8 +10,6 @@ CLAIMS = {
    text="Structural necessary conditions of total decoding decided for every decoder path: input-sized allocations are limit-checked and non-negative (R-ALLOC), input-chosen indices anywhere in the library are bounds-checked, masked to fit or validated (R-INDEX), input-dependent loops are bounded or consume input (R-TERM), and decoder errors reach the caller (R-STICKY). This is a sound-by-construction argument about all byte strings for those clauses, not a proof of the whole property.",
    note="Trusts go/ssa and the VTA call graph; 64-bit int; sanitizer table (CellID.IsValid). Does not decide nil-dereference/division panics on decoded-but-degenerate geometry.",
    design="DESIGN.md section 3 R-ALLOC/R-INDEX/R-TERM/R-STICKY, section 4 C15"),
-}
-
  "C14": dict(
    technique="static analysis: lockset / lock-order analysis over go/ssa + VTA call graph (atomic-only status word, balanced mutex, re-entrancy, publish-last ordering, who-may-write shared index state), global-state scan",
    text="Race freedom of concurrent read-only queries reduced to its structural conditions, decided for every function of the library: ShapeIndex.status only via sync/atomic; mutex balanced on all paths and never re-acquired from its own critical section; fast path only after an atomic load observed 'fresh'; 'fresh' published after the updates and before unlock; cellMap/cells and the pending bookkeeping written only under the mutex or by documented single-threaded mutators; no package-level variable written after init. Holds for every schedule because it establishes the lockset and publication order rather than exploring interleavings.",
